@@ -13,6 +13,7 @@ import (
 	"errors"
 	"flag"
 	"fmt"
+	"hash/crc32"
 	"os"
 	"path/filepath"
 	"sort"
@@ -107,6 +108,54 @@ func genHistory(r *hx.Rng, idBase uint64) jrnkit.History {
 			cs.Reopen = true
 		}
 		h.Commits = append(h.Commits, cs)
+	}
+	return h
+}
+
+// genIdxSyncHistory: the intermediate-sync + index-flush path of writeCompressedChunk.  A prior
+// commit, then a commit whose chunk writes cross the un-synced threshold (reached by advancing the
+// counter) at one of its LAST chunk records while more than maxNovel chunks are un-indexed, so the
+// intermediate sync also writes an index meta record and no later flush re-covers the crossing
+// chunk.  The store is then reopened WITH the index it wrote (checkReopenWithIndex).
+func genIdxSyncHistory(r *hx.Rng, idBase uint64) jrnkit.History {
+	h := jrnkit.History{B: hx.Pick(r, []uint32{4096, 2048, 0}), MaxNovel: r.Range(1, 4)}
+	id := idBase
+	mk := func(n int) []jrnkit.ChunkSpec {
+		var cs []jrnkit.ChunkSpec
+		for i := 0; i < n; i++ {
+			id++
+			cs = append(cs, jrnkit.ChunkSpec{Kind: hx.Pick(r, []string{"rand", "rep", "tiny"}), Size: r.Range(0, 250), Id: id})
+		}
+		return cs
+	}
+	for c := 0; c < r.Range(1, 2); c++ {
+		h.Commits = append(h.Commits, jrnkit.CommitSpec{Chunks: mk(r.Range(0, 3))})
+	}
+	n := h.MaxNovel + r.Range(2, 6)
+	big := jrnkit.CommitSpec{Chunks: mk(n)}
+	// records written by that commit: the n leaf chunks, then the root chunk (size known only at
+	// build time: crossing at the root chunk = "bytes of all leafs, plus one")
+	var sizes []int
+	for _, cs := range big.Chunks {
+		_, cc := nbs.VerifJrnCompress(jrnkit.ChunkData(cs))
+		sizes = append(sizes, 32+len(cc))
+	}
+	// crossing record index t: at most maxNovel records may follow it (else the commit's own index
+	// flush would sweep its lookup into a complete batch)
+	after := r.Intn(h.MaxNovel + 1) // records after the crossing one, root chunk included
+	t := n - after                  // t == n: the root chunk's record crosses
+	sum := 0
+	for i := 0; i < t && i < n; i++ {
+		sum += sizes[i]
+	}
+	slack := 0
+	if t < n && sizes[t] > 1 {
+		slack = r.Intn(sizes[t] - 1)
+	}
+	big.Bump = uint64(nbs.VerifJrnMaybeSyncThreshold) - uint64(sum) - uint64(slack)
+	h.Commits = append(h.Commits, big)
+	if r.Chance(1, 3) { // a small later commit that stays below maxNovel
+		h.Commits = append(h.Commits, jrnkit.CommitSpec{})
 	}
 	return h
 }
@@ -266,6 +315,25 @@ func tornEmbed(bt *jrnkit.Built, k int) bool {
 	return false
 }
 
+var castagnoli = crc32.MakeTable(crc32.Castagnoli)
+
+// cleanPrefixEnd: independent walk over length-prefixed, CRC-32C-checked records (Go standard
+// library checksum): the offset where the image stops being a clean record sequence.
+func cleanPrefixEnd(image []byte) int {
+	off := 0
+	for off+8 <= len(image) {
+		l := int(binary.BigEndian.Uint32(image[off:]))
+		if l < 8 || off+l > len(image) {
+			break
+		}
+		if crc32.Checksum(image[off:off+l-4], castagnoli) != binary.BigEndian.Uint32(image[off+l-4:]) {
+			break
+		}
+		off += l
+	}
+	return off
+}
+
 func evalImage(bt *jrnkit.Built, img imgSpec, imgDir string) {
 	k := img.K
 	if k > len(bt.File) {
@@ -304,6 +372,12 @@ func evalImage(bt *jrnkit.Built, img imgSpec, imgDir string) {
 	} else {
 		e.Rep.Hit("offset:boundary")
 	}
+	// a garbage byte can complete a record torn one byte short (1/256): then nothing is damaged and
+	// the valid records of the tail are a legitimate continuation of the journal — no expectation
+	completed := len(tail) > 0 && cleanPrefixEnd(image) > k
+	if completed {
+		e.Rep.Hit("tail-completed-the-torn-record")
+	}
 	embedTorn := tornEmbed(bt, k)
 	if embedTorn {
 		e.Rep.Hit("torn-record-with-embedded-records")
@@ -337,6 +411,7 @@ func evalImage(bt *jrnkit.Built, img imgSpec, imgDir string) {
 	// implementation's rule does not report them; compared with the model only.
 	benign := img.Tail == "drop" || img.Tail == "zero" || img.Tail == "garbage"
 	switch {
+	case completed:
 	case strings.HasPrefix(rr.Class, "panic") || strings.HasPrefix(rr.Class, "err:"):
 		e.Rep.Violate("journal-reopen-fails/"+img.Tail, "reopening a crash image fails: "+rr.Class, kc)
 	case rr.Class == "dataloss":
@@ -370,6 +445,8 @@ func evalImage(bt *jrnkit.Built, img imgSpec, imgDir string) {
 	case len(mw) > 2 && mw[0] == "ok":
 		if rr.Class != "ok" {
 			e.Rep.Disagree(kc, rr.Class, trunc(modelOut), "store reopen vs model")
+		} else if manifest == nil {
+			// a directory without manifest opens as an empty store whatever the journal holds
 		} else if mw[2] != "-" && mw[2] != hx.Hex(rr.Root[:]) {
 			e.Rep.Disagree(kc, "root "+hx.Hex(rr.Root[:]), trunc(modelOut), "store reopen root vs model")
 		} else if mw[2] != "-" && fmt.Sprint(rr.JrnSize) != mw[1] {
@@ -429,6 +506,35 @@ func offsetsFor(bt *jrnkit.Built, r *hx.Rng, all bool, limit int) []int {
 		sort.Ints(ks)
 	}
 	return ks
+}
+
+// runIdxSync: one history of the intermediate-sync family: build, ack/writer conformance, reopen with
+// the written index.
+func runIdxSync(h jrnkit.History, idx int) {
+	dir := filepath.Join(fastScratch(), fmt.Sprintf("h%d", idx))
+	defer os.RemoveAll(dir)
+	kc := kase{Hist: h, Op: "idxsync"}
+	bt, err := jrnkit.Build(filepath.Join(dir, "w"), h)
+	if err != nil {
+		e.Rep.Disagree(kc, "build failed: "+err.Error(), "-", "history could not be written by the real store")
+		return
+	}
+	old := nbs.VerifJrnSetBuffSize(effB(h))
+	defer nbs.VerifJrnSetBuffSize(old)
+	e.Rep.TracesValidated++
+	e.Rep.Hit("family:idxsync")
+	nroots := 0
+	for _, ri := range bt.Recs {
+		if ri.Kind == 1 {
+			nroots++
+		}
+	}
+	if nroots > len(bt.Acks) {
+		e.Rep.Hit("idxsync:intermediate-sync-fired")
+	}
+	checkAcks(bt, kc)
+	checkWriter(bt, kc)
+	checkReopenWithIndex(bt, filepath.Join(dir, "withidx"))
 }
 
 func checkAcks(bt *jrnkit.Built, kc kase) {
@@ -507,6 +613,75 @@ func checkWriter(bt *jrnkit.Built, kc kase) {
 	}
 }
 
+// checkReopenWithIndex: reopen WITH the journal index the store itself wrote — the directory as a
+// clean close left it, and crash copies (journal as acknowledged, index cut after each complete
+// batch / as flushed) — and require the acknowledged root and EVERY chunk written before it to be
+// readable with its exact bytes.
+func checkReopenWithIndex(bt *jrnkit.Built, dir string) {
+	if len(bt.Acks) == 0 {
+		return
+	}
+	want := bt.Acks[len(bt.Acks)-1].Root
+	type copyv struct {
+		Name    string
+		Journal []byte
+		Index   []byte
+	}
+	copies := []copyv{{"clean-close", bt.FileClosed, bt.Index}, {"crash:index-as-flushed", bt.File, bt.Index}}
+	for off := 0; off < len(bt.Index); { // batch ends
+		if bt.Index[off] == 0 && off+29 <= len(bt.Index) {
+			off += 29
+		} else if bt.Index[off] == 1 && off+41 <= len(bt.Index) {
+			off += 41
+			copies = append(copies, copyv{fmt.Sprintf("crash:index-cut-at-batch-end-%d", off), bt.File, bt.Index[:off]})
+		} else {
+			break
+		}
+	}
+	nmeta := len(copies) - 2
+	for _, c := range copies {
+		kc := kase{Hist: bt.Hist, Op: "reopen-with-index:" + c.Name}
+		canon, _ := json.Marshal(kc)
+		e.Rep.Count(string(canon), nmeta > 0)
+		e.Rep.Hit("reopen-with-index:" + strings.SplitN(c.Name, "-at-", 2)[0])
+		if err := jrnkit.WriteImage(dir, c.Journal, bt.ManifestClose, c.Index); err != nil {
+			panic(err)
+		}
+		func() {
+			st, err := jrnkit.Open(dir, jrnkit.StoreOpts{SkipWait: true})
+			if err != nil {
+				e.Rep.Violate("journal-reopen-with-index-fails", "reopening with the index the store wrote fails: "+err.Error(), kc)
+				return
+			}
+			defer st.Close()
+			root, _ := st.Root(jrnkit.Ctx)
+			if root != want {
+				e.Rep.Violate("journal-reopen-with-index-root", fmt.Sprintf("reopen with the written index shows root %s, acknowledged %s", root, want), kc)
+				return
+			}
+			var bad []string
+			for h, d := range bt.Data {
+				ch, gerr := st.Get(jrnkit.Ctx, h)
+				switch {
+				case gerr != nil:
+					bad = append(bad, h.String()+":"+gerr.Error())
+				case ch.IsEmpty():
+					bad = append(bad, h.String()+":absent")
+				case !bytes.Equal(ch.Data(), d):
+					bad = append(bad, h.String()+":wrong-bytes")
+				}
+			}
+			if len(bad) > 0 {
+				sort.Strings(bad)
+				e.Rep.Violate("journal-chunk-unreadable-after-reopen-with-index", fmt.Sprintf("reopen (%s) succeeds and shows the acknowledged root, but %d chunk(s) written before it are unreadable although their journal records are intact: %v", c.Name, len(bad), bad[:min(3, len(bad))]), kc)
+			}
+		}()
+	}
+	if nmeta > 0 {
+		e.Rep.Hit("history:index-meta-written")
+	}
+}
+
 func runHistory(h jrnkit.History, only *imgSpec, hr *hx.Rng, idx int, si straceInfo) {
 	dir := filepath.Join(fastScratch(), fmt.Sprintf("h%d", idx))
 	kc := kase{Hist: h}
@@ -539,6 +714,7 @@ func runHistory(h jrnkit.History, only *imgSpec, hr *hx.Rng, idx int, si straceI
 	}
 	checkAcks(bt, kc)
 	checkWriter(bt, kc)
+	checkReopenWithIndex(bt, filepath.Join(dir, "withidx"))
 	if r := m.Ask("load " + hx.Hex(bt.File)); !strings.HasPrefix(r, "ok") {
 		e.Rep.Disagree(kc, "load", r, "model load")
 		return
@@ -855,6 +1031,12 @@ func main() {
 	for i := 0; i < e.N(600, 20000); i++ {
 		windowCase(wr)
 	}
+	irng := e.Rng.Fork()
+	for i := 0; i < e.N(10, 150); i++ {
+		hr := irng.Fork()
+		h := genIdxSyncHistory(hr, uint64(i+1)*100000+50000+e.Seed*1000000007)
+		runIdxSync(h, 5000+i)
+	}
 	hrng := e.Rng.Fork()
 	nh := e.N(8, 80)
 	for i := 0; i < nh; i++ {
@@ -880,6 +1062,10 @@ func runCase(raw json.RawMessage, idx int) {
 	}
 	if kc.Op == "codec" {
 		codecCase(hx.Unhex(kc.Rec))
+		return
+	}
+	if kc.Op == "idxsync" || strings.HasPrefix(kc.Op, "reopen-with-index") {
+		runIdxSync(kc.Hist, idx)
 		return
 	}
 	if kc.Op == "window" {
